@@ -108,11 +108,27 @@ theorem mh_ensureSigchld (st : St) : MH st (ensureSigchld st) := by
   · exact (mh_watchSignal _ _ _ _).trans (MH.of_heap_eq rfl rfl)
 
 
+theorem mh_setNotify (st : St) (a : Nat) (n : Option Nat) : MH st (setNotify st a n) := by
+  unfold setNotify
+  exact mh_setW st a { st.getW a with notify := n } rfl rfl (Or.inl rfl) (fun h => h)
+
+theorem mh_linkNotified (r : St × Nat) (a : Nat) (flags : Nat) : MH r.1 (linkNotified r a flags) := by
+  unfold linkNotified
+  exact ((mh_setNotify r.1 a (some r.2)).trans (mh_insertWatch _ _ _ _)).trans (mh_with_procs _ _)
+
+theorem mh_clearNotify (st : St) (a : Nat) : MH st (clearNotify st a) := by
+  unfold clearNotify
+  split
+  · exact mh_setNotify st a none
+  · exact MH.refl _
+
 theorem mh_linkProcess (st : St) (a : Nat) (pid : Int) (flags : Nat) : MH st (linkProcess st a pid flags) := by
   unfold linkProcess
   simp only []
   split
-  · exact ((mh_waitpid _ _).trans (mh_setWstatus _ _ _)).trans (mh_watchLater _ _ _ _)
+  · split
+    · exact (((mh_waitpid _ _).trans (mh_setWstatus _ _ _)).trans (mh_watchLater _ _ _ _)).trans (mh_linkNotified _ _ _)
+    · exact ((mh_waitpid _ _).trans (mh_setWstatus _ _ _)).trans (mh_watchLater _ _ _ _)
   · exact ((mh_waitpid _ _).trans (mh_insertWatch _ _ _ _)).trans (mh_with_procs _ _)
 
 
@@ -167,8 +183,8 @@ theorem mh_laterPre (st : St) (a : Nat) : MH st (laterPre st a) := by
   · exact (mh_setW _ a _ rfl rfl (Or.inl rfl) (fun h => h))
   · exact MH.refl _
 
-theorem mh_watchCancel (st : St) (a : Nat) : MH st (watchCancel st a) := by
-  unfold watchCancel
+theorem mh_watchCancel0 (st : St) (a : Nat) : MH st (watchCancel0 st a) := by
+  unfold watchCancel0
   split
   · exact MH.refl st
   · split
@@ -183,6 +199,14 @@ theorem mh_watchCancel (st : St) (a : Nat) : MH st (watchCancel st a) := by
             · exact MH.refl st
           · exact mh_cancelFound st a _ _
 
+
+theorem mh_watchCancel (st : St) (a : Nat) : MH st (watchCancel st a) := by
+  unfold watchCancel
+  split
+  · split
+    · exact (mh_watchCancel0 st a).trans (mh_watchCancel0 _ _)
+    · exact mh_watchCancel0 st a
+  · exact mh_watchCancel0 st a
 
 theorem mh_with_slots (st : St) (l : List SlotRec) : MH st { st with slots := l } := MH.of_heap_eq rfl rfl
 
@@ -365,7 +389,7 @@ theorem mh_processNotify (st : St) (a : Nat) : MH st (processNotify st a) := by
   unfold processNotify
   split
   · exact (mh_fail _ _)
-  · exact mh_invokeWatch _ _ _ _
+  · exact (mh_clearNotify _ _).trans (mh_invokeWatch _ _ _ _)
 
 
 theorem mh_laterCb (st : St) (a : Nat) : MH st (laterCb st a) := by
